@@ -249,7 +249,7 @@ def enum_threads(ctx: Ctx, tier: str, shard: int, nshards: int) -> None:
     clients, and of cached threads plus an external raw writer."""
     from props import c03_linearizable as c03
 
-    wanted = ("create-from-template/read", "create+write/read", "finish, refresh / single read", "refresh / create / single read")
+    wanted = ("create-from-template/read", "create+write/read", "finish, refresh / single read", "refresh / create / single read", "snapshot / finish old, create new", "snapshot / ordered writes to two trials")
     jobs = [(lay, name, pre, workers) for lay in ("threads:cached_sqlite", "mixed:cached_sqlite", "procs:cached_sqlite") for (name, pre, workers) in c03.CLASSIC if name in wanted]
     for i, (lay, name, pre, workers) in enumerate(jobs):
         if i % nshards != shard:
@@ -257,7 +257,7 @@ def enum_threads(ctx: Ctx, tier: str, shard: int, nshards: int) -> None:
         ctx.sub = "threads"
         c03.run_scenario({"layout": lay, "pre": pre, "workers": workers, "multi": [], "salt": i}, ctx)
         ctx.event("threads:" + name)
-    ctx.exhaustive_parts.append("four read-related races on three cached layouts under the line-level scheduler (single-preemption schedules; quick tier: 24 sampled switch points each)")
+    ctx.exhaustive_parts.append("six read-related races on three cached layouts under the line-level scheduler (single-preemption schedules; quick tier: every SQL-statement / commit / lock-release boundary plus 8 sampled switch points each)")
 
 
 def _replay_threads(case: dict[str, Any], ctx: Ctx) -> None:
